@@ -12,8 +12,9 @@ from ..core import finish, ROOT
 from ..tlc import MachineryError
 
 MODES = ["first_keep", "first_replace", "last_keep", "last_replace", "append_nopop", "append_pop",
-         "magic_end", "magic_idx", "fn_plain", "fn_args", "fn_compiled"]
-KEEPS = {"first_keep", "last_keep", "append_pop", "magic_end", "magic_idx"}
+         "magic_end", "magic_idx", "fn_plain", "fn_args", "fn_compiled", "num_first_keep", "num_append_pop"]
+NUMARGS = ("1e3", 8080, b"12", "payload")       # numeric-looking text / bytes must arrive as text / bytes
+KEEPS = {"first_keep", "last_keep", "append_pop", "magic_end", "magic_idx", "num_first_keep", "num_append_pop"}
 FN = "def verif_fn(obj, *a):\n    import verif_sink\n    verif_sink.calls.append(('fn', a, {}))\n    return ['wrapped', obj]\n"
 ASSUME = ["base pickles are clean (exactly one value on the VM stack at STOP); symbolic globals are instantiated with the "
           "logging sink (verif_sink.Thing) so that real loads are harmless",
@@ -40,6 +41,10 @@ def apply_mode(fk, p, mode):
         p.append_python("payload", pop_result=False, **kw)
     elif mode == "append_pop":
         p.append_python("payload", pop_result=True, **kw)
+    elif mode == "num_first_keep":
+        p.insert_python(*NUMARGS, run_first=True, use_output_as_unpickle_result=False, **kw)
+    elif mode == "num_append_pop":
+        p.append_python(*NUMARGS, pop_result=True, **kw)
     elif mode == "magic_end":
         p.insert_magic_int(4660)
     elif mode == "magic_idx":
@@ -101,7 +106,8 @@ def run(ctx):
             rec = {"id": len(recs), "base": ops, "mode": mode, "prof": prof, "base_hex": data.hex(), "refused": False,
                    "new": [], "new_hex": "", "sev": -1, "keeps": mode in KEEPS,
                    "added": 0 if mode.startswith("magic") else 1, "inj": dg(["injected", ["tuple", ["str", "'payload'"]], ["dict"]])
-                   if not mode.startswith("fn_") else dg(["fn", ["tuple"] + ([["int", "7"], ["str", "'x'"]] if mode == "fn_args" else []), ["dict"]]),
+                   if not mode.startswith(("fn_", "num_")) else dg(["injected", ["tuple", ["str", "'1e3'"], ["int", "8080"], ["bytes", "b'12'"], ["str", "'payload'"]], ["dict"]])
+                   if mode.startswith("num_") else dg(["fn", ["tuple"] + ([["int", "7"], ["str", "'x'"]] if mode == "fn_args" else []), ["dict"]]),
                    "base_loads": False, "bcalls": [], "bres": "", "injres": "", "runs": []}
             try:
                 p = fk.Pickled.load(data)
